@@ -183,6 +183,9 @@ func TestC11_Real(t *testing.T) {
 		dims = []dim{{"deletion", 2, 3}, {"insertion", 3, 2}, {"insertion", 4, 1}, {"deletion", 1, 4}}
 	}
 	d := dims[Shard()%len(dims)]
+	if _, err := getSystem(d.mode, d.depth, d.batch); err != nil {
+		t.Fatalf("harness: %v", err)
+	}
 	opsList := [][]string{{"file-raw"}, {"compressed", "raw"}}
 	if Thorough() {
 		opsList = append(opsList, []string{"cli-convert"}, []string{"file-compressed", "file-raw"})
